@@ -119,6 +119,7 @@ func rulePopOrder(c *Ctx) {
 			})
 		}
 	}
+	c.mapLiteralOrder()
 }
 
 // ---------- BC-1 ----------
@@ -1445,6 +1446,7 @@ func ruleLazy(c *Ctx) {
 			return false
 		}
 		makers := map[types.Object]bool{}
+		strictHelpers := map[types.Object]bool{} // value: the helper evaluates inside a loop over its argument list
 		c.eachFuncDecl(func(p2 *packages.Package, g *ast.FuncDecl) {
 			if p2 != pk || g == fd || g.Body == nil {
 				return
@@ -1458,7 +1460,37 @@ func ruleLazy(c *Ctx) {
 				}
 			}
 			if !isEval && containsEval(g.Body) {
-				makers[o] = true
+				// a helper that evaluates arguments directly (outside any function literal: `evalAll(cs, env)`) is strict
+				// evaluation written once for several callers; one that evaluates only inside a literal defers it
+				direct, directInLoop := false, false
+				inspectNoLit(g.Body, func(x ast.Node) bool {
+					if ce, ok := x.(*ast.CallExpr); ok && evalIs(ce) {
+						direct = true
+						for _, a := range ancestors(g, ce) {
+							switch a.(type) {
+							case *ast.RangeStmt, *ast.ForStmt:
+								directInLoop = true
+							}
+						}
+					}
+					return true
+				})
+				// .. unless what it hands back is itself code to run later (vm.Compiler.Compile compiles the argument into a
+				// closure of its own): that is deferral by construction
+				returnsCode := false
+				if sig, ok := o.Type().(*types.Signature); ok {
+					for i := 0; i < sig.Results().Len(); i++ {
+						if _, isFn := sig.Results().At(i).Type().Underlying().(*types.Signature); isFn {
+							returnsCode = true
+						}
+					}
+				}
+				// functions that existed at the pinned commit keep the classification confirmed by reading (all of them defer)
+				if direct && !returnsCode && !knownFuncs[fnName(short(p2.PkgPath), g)] {
+					strictHelpers[o] = directInLoop
+				} else {
+					makers[o] = true
+				}
 			}
 		})
 		// facts known at a node, through all enclosing literals
@@ -1525,6 +1557,14 @@ func ruleLazy(c *Ctx) {
 			}
 			return false
 		}
+		isStrictHelper := func(call *ast.CallExpr) bool {
+			o := c.calleeObj(call)
+			if o == nil {
+				return false
+			}
+			_, ok := strictHelpers[o]
+			return ok
+		}
 		nStrict, nDeferred := 0, 0
 		var bad []string
 		var first ast.Node = fd
@@ -1546,6 +1586,23 @@ func ruleLazy(c *Ctx) {
 				lt, _ := known(inLit(call))
 				if !lt {
 					bad = append(bad, "thunk around "+src(call)+" is not created under the Lazy case only")
+				}
+			case isStrictHelper(call) && inLit(call) != nil:
+				// evaluation inside a thunk literal: deferred; the literal must be created under Lazy
+				nDeferred++
+				lt, _ := known(inLit(call))
+				if !lt {
+					bad = append(bad, "thunk around "+src(call)+" is not created under the Lazy case only")
+				}
+			case isStrictHelper(call):
+				nStrict++
+				first = call
+				_, lf := known(call)
+				if !lf {
+					bad = append(bad, "argument evaluation "+src(call)+" is not confined to the not-Lazy case")
+				}
+				if !inLoop(call) && !strictHelpers[c.calleeObj(call)] {
+					bad = append(bad, "argument evaluation "+src(call)+" is not in a loop over the arguments")
 				}
 			case makers[c.calleeObj(call)]:
 				nDeferred++
@@ -1613,4 +1670,149 @@ func ruleLazy(c *Ctx) {
 	thunkLit("closure", "", "", true)
 	thunkLit("interp", "", "interp.interp", false)
 	thunkLit("vm", "switchThreading", "vm.VM.call0", false)
+}
+
+
+// mapLiteralOrder (clause of POPORDER-1 for the two back ends without a stack): a map literal evaluates k1, v1, k2, v2, ..
+// The VM gets that order from the compiler's emission order plus the reversed pops checked above; the closure compiler and
+// the interpreter get it from their own loop. In the MapExpr arm — in the closure it returns, for the closure compiler — all
+// run-time evaluations of sub-expressions happen in ONE sweep (a single loop over the pairs), and within one iteration the
+// evaluation whose result becomes the key comes first. Two sweeps (all keys, then all values) build the same map but run
+// host functions in a different order and let a failing value no longer stop later keys.
+func (c *Ctx) mapLiteralOrder() {
+	type be struct {
+		sp, fn string
+		evalIs func(*ast.CallExpr) bool
+	}
+	for _, b := range []be{
+		{"closure", "compile0", func(call *ast.CallExpr) bool {
+			return c.calleeObj(call) == nil && typeStr(c.typeOf(call.Fun)) == "compiler.Closure"
+		}},
+		{"interp", "interp", func(call *ast.CallExpr) bool { return c.calleeName(call) == "interp.interp" }},
+	} {
+		fd := c.FuncDecl(b.sp, b.fn)
+		name := b.sp + "." + b.fn
+		if fd == nil {
+			c.R.Anchor(name)
+			continue
+		}
+		var arm *ast.CaseClause
+		for _, ts := range c.typeSwitches(fd.Body) {
+			if cc := c.tsCases(ts)["parser/ast.MapExpr"]; cc != nil && arm == nil {
+				arm = cc
+			}
+		}
+		if arm == nil {
+			c.R.Unk(name, "map literal evaluated pair by pair, key first", fd.Pos(), "no MapExpr arm found")
+			continue
+		}
+		pk := c.Mod[b.sp]
+		// helpers (new functions) that evaluate directly: each call is a sweep of its own
+		sweepers := map[types.Object]bool{}
+		c.eachFuncDecl(func(p2 *packages.Package, g *ast.FuncDecl) {
+			if p2 != pk || g == fd || g.Body == nil || knownFuncs[fnName(short(p2.PkgPath), g)] {
+				return
+			}
+			inspectNoLit(g.Body, func(x ast.Node) bool {
+				if ce, ok := x.(*ast.CallExpr); ok && b.evalIs(ce) {
+					sweepers[p2.TypesInfo.Defs[g.Name]] = true
+				}
+				return true
+			})
+		})
+		var region ast.Node = &ast.BlockStmt{List: arm.Body}
+		if b.sp == "closure" {
+			// the run-time part: the last returned literal of the arm
+			var lit *ast.FuncLit
+			for _, r := range returnsOf(&ast.BlockStmt{List: arm.Body}) {
+				if len(r.Results) == 1 {
+					if l, ok := unparen(r.Results[0]).(*ast.FuncLit); ok {
+						lit = l
+					}
+				}
+			}
+			if lit == nil {
+				c.R.Unk(name, "map literal evaluated pair by pair, key first", arm.Pos(), "the arm does not return a closure literal")
+				continue
+			}
+			region = lit.Body
+		}
+		loopOf := func(n ast.Node) ast.Node {
+			var l ast.Node
+			for _, a := range ancestors(region, n) {
+				switch a.(type) {
+				case *ast.RangeStmt, *ast.ForStmt:
+					l = a
+				}
+			}
+			return l
+		}
+		sweeps := map[ast.Node][]*ast.CallExpr{}
+		nSweeps := 0
+		var order []ast.Node
+		for _, call := range c.calls(region) {
+			switch {
+			case b.evalIs(call):
+				l := loopOf(call)
+				if l == nil {
+					l = call // a single evaluation outside any loop counts as a sweep of its own
+				}
+				if _, seen := sweeps[l]; !seen {
+					nSweeps++
+					order = append(order, l)
+				}
+				sweeps[l] = append(sweeps[l], call)
+			case sweepers[c.calleeObj(call)]:
+				nSweeps++
+				order = append(order, call)
+				sweeps[call] = nil
+			}
+		}
+		ok, why := nSweeps == 1, fmt.Sprintf("%d evaluation sweeps over the pairs (expected one loop evaluating key and value of each pair in turn)", nSweeps)
+		if ok {
+			sites := sweeps[order[0]]
+			if len(sites) < 2 {
+				ok, why = false, "the loop evaluates only one sub-expression per pair"
+			} else {
+				// the evaluation that feeds Key() comes first
+				feedsKey := func(call *ast.CallExpr) bool {
+					for _, a := range ancestors(region, call) {
+						if ce, isCall := a.(*ast.CallExpr); isCall && ce != call {
+							if se, isSel := ce.Fun.(*ast.SelectorExpr); isSel && se.Sel.Name == "Key" && unparen(se.X) == ast.Expr(call) {
+								return true
+							}
+						}
+					}
+					// k := eval; .. k.Key()
+					var lhs types.Object
+					for _, a := range ancestors(region, call) {
+						if as, isAs := a.(*ast.AssignStmt); isAs && len(as.Lhs) == 1 && len(as.Rhs) == 1 && unparen(as.Rhs[0]) == ast.Expr(call) {
+							lhs = c.objOf(as.Lhs[0])
+						}
+					}
+					if lhs == nil {
+						return false
+					}
+					found := false
+					ast.Inspect(region, func(x ast.Node) bool {
+						if se, isSel := x.(*ast.SelectorExpr); isSel && se.Sel.Name == "Key" && c.objOf(se.X) == lhs {
+							found = true
+						}
+						return !found
+					})
+					return found
+				}
+				first := sites[0]
+				for _, s := range sites {
+					if s.Pos() < first.Pos() {
+						first = s
+					}
+				}
+				if !feedsKey(first) {
+					ok, why = false, "the first evaluation in the loop body ("+src(first)+") is not the one whose result becomes the key"
+				}
+			}
+		}
+		c.R.Check(ok, name, "map literal evaluated pair by pair, key first", arm.Pos(), "one loop: key, value, store", "map literal "+why+": host functions in keys and values run in a different order than in the other back ends, and a failing value no longer stops the evaluation of later keys")
+	}
 }
